@@ -35,8 +35,29 @@ theorem seek_keeps_loop_flag (s : Seq) (t gran : Rat) (fuel : Nat) : (seek s t g
 /-- during a seek the row loop skips every note-on before it reaches `handleEvent`: no note is started -/
 theorem rowEvents_seek_skips_noteOn (tk : Nat) (t : Rat) (e : Ev) (es : List Ev) (last : Int) (r : RowRes) (h : e.type = tNoteOn) :
     rowEvents true tk t (e :: es) last r = rowEvents true tk t es last r := by
-  have hb : (true && e.type == tNoteOn) = true := by simp [h]
-  conv => lhs; unfold rowEvents
-  simp only [hb, if_true]
+  rw [rowEvents]
+  simp [h]
+
+/-- **a row is replayed by a seek exactly as linear playback would play it with its note-ons taken out**: same sequencer
+    state, same tempo changes, same loop bookkeeping, same controller / program / SysEx events delivered -/
+theorem rowEvents_seek_eq_filtered (tk : Nat) (t : Rat) : ∀ (es : List Ev) (last : Int) (r : RowRes),
+    rowEvents true tk t es last r = rowEvents false tk t (es.filter (fun e => e.type != tNoteOn)) last r
+  | [], last, r => by simp [rowEvents]
+  | e :: es, last, r => by
+    by_cases h : e.type = tNoteOn
+    · rw [rowEvents_seek_skips_noteOn tk t e es last r h]
+      have : (e.type != tNoteOn) = false := by simp [h]
+      simp only [List.filter_cons, this, Bool.false_eq_true, if_false]
+      exact rowEvents_seek_eq_filtered tk t es last r
+    · have hne : (e.type != tNoteOn) = true := by simpa using h
+      have hb : (e.type == tNoteOn) = false := by simpa using h
+      simp only [List.filter_cons, hne, if_true]
+      rw [rowEvents, rowEvents]
+      simp only [hb, Bool.and_false, Bool.false_eq_true, if_false]
+      generalize eventStep tk t e last r = st
+      obtain ⟨r', last', j⟩ := st
+      cases j
+      · exact rowEvents_seek_eq_filtered tk t es last' r'
+      · rfl
 
 end Opn.C08
